@@ -176,6 +176,7 @@ func edgeGuards(from, to *ssa.BasicBlock) []Guard {
 type DeepGuard struct {
 	Fn *ssa.Function
 	Guard
+	Via *ssa.Call // the predicate call in the outer function through which the fact was obtained (nil: direct)
 }
 
 // guardsAtDeep: the guard facts of block b of f, plus — for every fact that is the outcome of an unexported
@@ -184,7 +185,7 @@ type DeepGuard struct {
 func (w *World) guardsAtDeep(f *ssa.Function, b *ssa.BasicBlock) []DeepGuard {
 	var out []DeepGuard
 	for _, g := range guardsAt(b) {
-		out = append(out, DeepGuard{f, g})
+		out = append(out, DeepGuard{f, g, nil})
 		cond, val := g.Cond, g.Val
 		if u, ok := cond.(*ssa.UnOp); ok && u.Op.String() == "!" {
 			cond, val = u.X, !val
@@ -206,8 +207,12 @@ func (w *World) guardsAtDeep(f *ssa.Function, b *ssa.BasicBlock) []DeepGuard {
 			}
 			k, isK := rt.Results[0].(*ssa.Const)
 			if !isK || k.Value == nil {
-				okAll = false
-				break
+				// the outcome is computed (`return 'A' <= c && c <= 'Z'`): on this return it has the value
+				// in question, which says something about the values it was computed from
+				fs := append([]Guard{}, guardsAt(hb)...)
+				fs = append(fs, expandGuard(Guard{rt.Results[0], val, nil}, 0)...)
+				sets = append(sets, fs)
+				continue
 			}
 			if (k.Value.String() == "true") != val {
 				continue
@@ -232,7 +237,7 @@ func (w *World) guardsAtDeep(f *ssa.Function, b *ssa.BasicBlock) []DeepGuard {
 				}
 			}
 			if common {
-				out = append(out, DeepGuard{h, g0})
+				out = append(out, DeepGuard{h, g0, call})
 			}
 		}
 	}
